@@ -115,6 +115,23 @@ impl<T: Copy + Default> Im2Col<'_, T> {
         rows: Range<usize>,
         cols: Range<usize>,
     ) {
+        self.pack_block_with_pad::<I, NR_REGS>(isa, out, panel_width, rows, cols, T::default())
+    }
+
+    /// Variant of [`pack_block`](Self::pack_block) which fills elements in the
+    /// padding region of the image with `pad` instead of zero.
+    ///
+    /// For quantized inputs `pad` must be the zero point.
+    #[inline(always)]
+    pub(super) fn pack_block_with_pad<I: Isa, const NR_REGS: usize>(
+        &self,
+        isa: I,
+        out: &mut [MaybeUninit<T>],
+        panel_width: usize,
+        rows: Range<usize>,
+        cols: Range<usize>,
+        pad: T,
+    ) {
         let ops = isa.i32();
         let mask_ops = isa.m32();
 
@@ -191,11 +208,7 @@ impl<T: Copy + Default> Im2Col<'_, T> {
                             unsafe { *img_data.get_unchecked(offsets_array[idx] as usize) };
 
                         // This should be compiled to a conditional move.
-                        let elem = if pad_mask_array[idx] {
-                            src_elem
-                        } else {
-                            T::default()
-                        };
+                        let elem = if pad_mask_array[idx] { src_elem } else { pad };
 
                         // Safety: `out_offset + i` is valid for `i < ops.len()`.
                         let out_el = unsafe { out.get_unchecked_mut(out_offset + idx) };
@@ -352,20 +365,29 @@ impl Im2Col<'_, i8> {
                             let src_elem =
                                 unsafe { *img_data.get_unchecked(offsets_array[idx] as usize) };
 
+                            // Elements in the padding region of the image
+                            // are equal to the zero point, so that they
+                            // contribute nothing after the zero point is
+                            // subtracted. Rows which pad the depth up to a
+                            // multiple of `K_TILE` must be zero.
                             if CAST_B_U8 {
                                 let src_elem = shift_cast_i8_u8(src_elem);
-                                let elem = if pad_mask_array[idx] && row_in_range {
+                                let elem = if !row_in_range {
+                                    0
+                                } else if pad_mask_array[idx] {
                                     src_elem
                                 } else {
-                                    0
+                                    shift_cast_i8_u8(zero_point)
                                 };
                                 col_sums[c_block][idx] += elem as i32;
                                 out_elem.write(elem as i8);
                             } else {
-                                let elem = if pad_mask_array[idx] && row_in_range {
+                                let elem = if !row_in_range {
+                                    0
+                                } else if pad_mask_array[idx] {
                                     src_elem
                                 } else {
-                                    0
+                                    zero_point
                                 };
                                 col_sums[c_block][idx] += elem as i32;
                                 out_elem.write(elem);
